@@ -797,3 +797,150 @@ class YamlDoc:
             docs.append("\n".join(self.block(depth, 0)))
         head = r.choice(["", "", "---\n", "%YAML 1.2\n---\n"])
         return head + "\n---\n".join(docs) + r.choice(["\n", "\n...\n", ""])
+
+
+# ----------------------------------------------------------------------------- annotation matrix
+# Exhaustive small cross product: every position where the grammar allows an annotation or a type
+# x every type shape (all TypeF forms) x every kind of identifier that can occur inside a type.
+# The compiler phases exchange invariants about annotations (positions, fixed type variables,
+# contract vs type flavour); a change that breaks one for a single combination is only met by a
+# program that has exactly that combination.
+
+ANNOT_PRELUDE = ("let Num = Number in let Pos = std.number.PosNat in "
+                 "let App = fun n => std.contract.from_predicate (fun v => v >= n) in "
+                 "let Lib = {Num = Number, Sub = {Pos = std.number.PosNat}} in ")
+
+# identifier kinds: (name, text as a type atom, needs field binding)
+ANNOT_IDS = [
+    ("builtin", "Number", False),
+    ("let-alias", "Num", False),
+    ("let-contract", "Pos", False),
+    ("field-bound", "Fld", True),
+    ("std-path", "std.number.PosNat", False),
+    ("record-access", "Lib.Sub.Pos", False),
+    ("application", "(App 0)", False),
+]
+
+# type shapes: (name, type with {I} for the identifier, a value of that type when {I} accepts 1)
+ANNOT_SHAPES = [
+    ("ident", "{I}", "1"),
+    ("array", "Array {I}", "[1, 2]"),
+    ("array2", "Array (Array {I})", "[[1]]"),
+    ("arrow", "{I} -> {I}", "(fun v => v)"),
+    ("arrow-ho", "({I} -> {I}) -> {I}", "(fun g => g 1)"),
+    ("forall-type", "forall a. a -> {I} -> a", "(fun u v => u)"),
+    ("forall-rrows", "forall r. {{x : {I}; r}} -> {I}", "(fun u => u.x)"),
+    ("forall-erows", "forall r. [| 'A {I}; r |] -> Number", "(fun u => 0)"),
+    ("forall-nested", "forall a. (forall b. b -> {I}) -> a -> a", "(fun g u => u)"),
+    ("enum-payload", "[| 'Tcp {I}, 'Unix String |]", "('Tcp 1)"),
+    ("enum-payload-deep", "[| 'Some (Array {I}), 'None |]", "('Some [1])"),
+    ("enum-payload-record", "[| 'R {{p : {I}}}, 'N |]", "('R {{p = 1}})"),
+    ("enum-tags", "[| 'a, 'b |]", "'a"),
+    ("record-type", "{{x : {I}}}", "{{x = 1}}"),
+    ("record-type-2", "{{x : {I}, y : [| 'K {I} |]}}", "{{x = 1, y = 'K 1}}"),
+    ("record-contract", "{{x | {I}}}", "{{x = 1}}"),
+    ("record-contract-open", "{{x | {I}, ..}}", "{{x = 1, z = 0}}"),
+    ("record-contract-meta", "{{x | {I} | optional, y | {I} | default = 1}}", "{{x = 1}}"),
+    ("dict-type", "{{_ : {I}}}", "{{k = 1}}"),
+    ("dict-contract", "{{_ | {I}}}", "{{k = 1}}"),
+    ("dict-of-enum", "{{_ : [| 'T {I} |]}}", "{{k = 'T 1}}"),
+    ("array-of-enum", "Array [| 'T {I} |]", "['T 1]"),
+    ("arrow-to-enum", "Number -> [| 'T {I} |]", "(fun n => 'T n)"),
+    ("dyn", "Dyn", "1"),
+]
+
+# positions: (name, template with {T} type, {V} value, {W} value carrying the contract so that a
+# static annotation typechecks)
+ANNOT_POSITIONS = [
+    ("let-contract", "let x | {T} = {V} in x"),
+    ("let-type", "let x : {T} = {W} in x"),
+    ("let-rec-contract", "let rec x | {T} = {V} in x"),
+    ("let-rec-type", "let rec x : {T} = {W} in x"),
+    ("let-block", "let x | {T} = {V}, y : {T} = {W} in [x, y]"),
+    ("inline-contract", "({V} | {T})"),
+    ("inline-type", "({W} : {T})"),
+    ("toplevel-contract", "{V} | {T}"),
+    ("inline-two", "({V} | {T} | {T})"),
+    ("field-contract", "{{ f | {T} = {V} }}"),
+    ("field-type", "{{ f : {T} = {W} }}"),
+    ("field-both", "{{ f : {T} | {T} = {W} }}"),
+    ("field-nodef", "{{ f | {T} }} & {{ f = {V} }}"),
+    ("field-nodef-alone", "{{ f | {T} | optional }}"),
+    ("field-piecewise", "{{ f | {T}, f = {V} }}"),
+    ("field-path", "{{ a.b | {T} = {V} }}"),
+    ("field-path-type", "{{ a.b.c : {T} = {W} }}"),
+    ("field-quoted", "{{ \"f g\" | {T} = {V} }}"),
+    ("field-dynamic", "{{ \"%{{\"f\"}}\" | {T} = {V} }}"),
+    ("field-doc-default", "{{ f | {T} | doc \"d\" | default = {V} }}"),
+    ("field-optional", "{{ f | {T} | optional = {V} }}"),
+    ("field-priority", "{{ f | {T} | priority 2 = {V} }}"),
+    ("field-force-notexported", "{{ f | {T} | force | not_exported = {V}, g = f }}"),
+    ("field-rec-use", "{{ f | {T} = {V}, g = f, h | {T} = g }}"),
+    ("field-nested-record", "{{ o = {{ f | {T} = {V} }} }}"),
+    ("field-in-array", "[{{ f | {T} = {V} }}]"),
+    ("field-include", "let f = {V} in {{ include f | {T} }}"),
+    ("field-merge", "{{ f | {T} }} & {{ f | {T} = {V} }}"),
+    ("pattern-let", "let {{ f | {T} }} = {{ f = {V} }} in f"),
+    ("pattern-let-type", "let {{ f : {T} }} = {{ f = {W} }} in f"),
+    ("pattern-let-default", "let {{ f | {T} ? {V} }} = {{}} in f"),
+    ("pattern-let-sub", "let {{ f | {T} = g }} = {{ f = {V} }} in g"),
+    ("pattern-fun", "(fun {{ f | {T} }} => f) {{ f = {V} }}"),
+    ("pattern-match", "{{ f = {V} }} |> match {{ {{ f | {T} }} => f, _ => null }}"),
+    ("pattern-nested", "let {{ o = {{ f | {T} }} }} = {{ o = {{ f = {V} }} }} in f"),
+    ("record-type-field", "({{ f = {V} }} | {{ f : {T} }})"),
+    ("record-contract-field", "({{ f = {V} }} | {{ f | {T} }})"),
+    ("let-record-type", "let x : {{ f : {T} }} = {{ f = {W} }} in x"),
+    ("type-as-value", "let C = {T} in ({V} | C)"),
+    ("type-as-field-value", "{{ C = {T}, f | C = {V} }}"),
+    ("fun-body", "(fun v => (v | {T})) {V}"),
+    ("fun-return-type", "((fun v => v) : ({T}) -> ({T}))"),
+    ("array-elem", "[{V} | {T}]"),
+    ("match-arm-body", "'k |> match {{ 'k => ({V} | {T}), _ => null }}"),
+    ("if-branch", "if true then ({V} | {T}) else null"),
+    ("contract-apply", "std.contract.apply ({T}) {V}"),
+    ("string-interp", "\"%{{std.to_string (std.typeof ({V} | {T}))}}\""),
+]
+
+
+def annotation_matrix(bad_every=0, seed=0):
+    """[(program body, position, shape, identifier kind)] — the full cross product; the program is
+    ANNOT_PRELUDE + body."""
+    out = []
+    k = 0
+    for pname, ptmpl in ANNOT_POSITIONS:
+        for sname, stmpl, sval in ANNOT_SHAPES:
+            for iname, itext, needs_field in ANNOT_IDS:
+                if "{I}" not in stmpl and iname != "builtin":
+                    continue
+                t = stmpl.format(I=itext)
+                v = sval.format()
+                k += 1
+                if bad_every and (k + seed) % bad_every == 0:
+                    v = "\"wrong\""
+                w = "(%s | %s)" % (v, t)
+                prog = ptmpl.format(T=t, V=v, W=w)
+                if needs_field:
+                    prog = "{ Fld = Number, out = %s }.out" % prog
+                out.append((prog, pname, sname, iname))
+    return out
+
+
+def annotation_batches(matrix, size=8):
+    """Programs of the same position grouped into one record literal (one stdlib load for `size`
+    programs).  A batch that does not go through cleanly is re-run member by member."""
+    out = []
+    cur, cur_pos = [], None
+    for item in matrix:
+        if cur and (item[1] != cur_pos or len(cur) >= size):
+            out.append(cur)
+            cur = []
+        cur.append(item)
+        cur_pos = item[1]
+    if cur:
+        out.append(cur)
+    return out
+
+
+def batch_program(batch):
+    # a record (not an array): the members keep independent types in a statically typed reading
+    return ANNOT_PRELUDE + "{\n" + ",\n".join("  c%d = (%s)" % (i, b[0]) for i, b in enumerate(batch)) + "\n}"
